@@ -231,6 +231,18 @@ def loop_requests(ctx, quick, k):
         bs = b"".join(rng.choice(frag) for _ in range(rng.randrange(1, 14)))
         for fn in FN_LOOPS:
             req.append(f"{fn} {hexs(bs)}")
+    # CreateSubSuperInstance (part loop, SkipSimpleRecord, PushPastImbedAggr, PushPastString) on the bytes of an external mapping
+    stoks = [b"(", b")", b"A1", b"BASE", b"x", b"(2.5)", b"'a)'", b"'", b",", b" ", b"1", b"((1),(2))", b"/*", b";", b"_", b"\x00"]
+    for n in range(0, (3 if quick else 4) + 1):
+        for t in itertools.product(stoks, repeat=n):
+            req.append(f"subsuperb {hexs(b'(' + b''.join(t))}")
+    for _ in range(300 if quick else 4000):
+        t = b"".join(rng.choice(stoks + [b"A1(2.5)", b"B1(.RED.)", b"C1((1,2,3))", b"X(('a','b'),((1)))"]) for _ in range(rng.randrange(1, 14)))
+        req.append(f"subsuperb {hexs(t)}")
+    g64 = k.get("entNmArr") or 65
+    for kk in sorted({1, 2, 62, 63, 64, 65, 66, g64 - 2, g64 - 1, g64, g64 + 1, 130, 1000}):
+        req.append(f"subsuperb {hexs(b'(' + b'A1(2.5)' * kk + b');x')}")
+        req.append(f"subsuperb {hexs(b'(' + b'A1((((' * kk)}")
     # the instance loop of pass 1 (ReadData1) on token sequences: ids, `=`, known / unknown keywords, records, `;`, ENDSEC
     # and its prefixes, strings holding `;`, comments, `!`, `,`.  Domain of the model: no record that starts with `(` or `&`
     # right after `=` (external mappings / SCOPE are outside the skeleton), each id at most once.
